@@ -700,6 +700,25 @@ func (e *Exec) equalFold(s, t *SliceV) *Term {
 		s, t = t, s
 		sa, ta = ta, sa
 	}
+	if !sa.isTrue() && !ta.isTrue() {
+		// lockstep case, exact whatever the bytes are: equal lengths and at every position the bytes
+		// are equal or ASCII letters differing only in case. UTF-8 decoding then stays aligned (a
+		// position where two different ASCII bytes meet cannot be a continuation byte on either side),
+		// so every pair of runes is equal or fold-equal.
+		n := e.reprCap(s)
+		if k := e.reprCap(t); k > n {
+			n = k
+		}
+		cs := []*Term{tb.Eq(s.len, t.len)}
+		for i := 0; i < n; i++ {
+			a, b := e.byteAt(s, i), e.byteAt(t, i)
+			same := tb.Or(tb.Eq(a, b), tb.And(tb.Ult(a, tb.BV(0x80, 8)), tb.Ult(b, tb.BV(0x80, 8)), tb.Eq(e.lowerByte(a), e.lowerByte(b))))
+			cs = append(cs, tb.Implies(tb.Ult(tb.BV(int64(i), 64), s.len), same))
+		}
+		if e.branch(tb.And(cs...)) {
+			return tb.tt
+		}
+	}
 	if !sa.isTrue() {
 		// make s the ASCII side if the solver can prove it; otherwise require one side ASCII
 		if !e.branch(sa) {
